@@ -21,7 +21,19 @@ STUB = ["cost, constraints, penalty, callback (scripted peers)", "clocks", "sign
 
 KNOBS = dict(p_vector=0.08, p_resume=0.4, p_logging=0.25)
 
+RETRY_KNOBS = dict(KNOBS, solvers=['DE', 'DE', 'DE', 'NM', 'NM', 'DE2', 'Powell'], p_bounds=0.1, p_constraint=0.1, p_term=0.2, p_limits=0.2,
+                   p_midrun_set=0.1, p_solve=0.2, max_step_n=4, p_vector=0.0, small_limits=False)
+
 def _gen_plan(seed, tier):
+    r0 = sub_rng(seed, 'plan.c04.retry')
+    if r0.random() < 0.12:
+        # dedicated 'the cost fails a few times, the caller handles it and steps again' histories, on plain configurations
+        plan = solverplan.gen_solver_plan(seed, tier, ID, RETRY_KNOBS)
+        plan['continue_after_fault'] = True
+        ats = sorted(set(r0.randint(3, 90) for _ in range(r0.choice([2, 3, 4, 5]))))
+        plan['faults'] = [{'at': 'cost#%d' % a, 'kind': 'raise', 'msg': 'injected failure of the cost function'} for a in ats]
+        plan['ops'] += [{'op': 'step', 'n': r0.randint(2, 4)} for _ in range(r0.randint(1, 3))]
+        return plan
     plan = solverplan.gen_solver_plan(seed, tier, ID, KNOBS)
     # fault-injecting configuration (reported separately in the evidence: faults_fired): an ENOSPC / EIO on a write
     # of a LoggingMonitor file.  The plan ends where the error reaches the caller.
@@ -58,9 +70,12 @@ def _gen_plan(seed, tier):
     rng = sub_rng(seed, 'fault')
     if logging and rng.random() < 0.5:
         plan['faults'] = [{'at': 'fs.write#%d' % rng.randint(2, 40), 'kind': rng.choice(['enospc', 'eio'])}]
-    elif rng.random() < 0.08:
-        # the user's cost fails once, loudly, from inside a call that has begun (it counts as a call)
-        plan['faults'] = [{'at': 'cost#%d' % rng.randint(1, 60), 'kind': 'raise', 'msg': 'injected failure of the cost function'}]
+    elif rng.random() < 0.22:
+        # the user's cost fails (once, or a few times), loudly, from inside a call that has begun (it counts as a call)
+        plan['continue_after_fault'] = rng.random() < 0.75      # the caller handles it and carries on with the plan (retries the step)
+        nf = rng.choice([1, 2, 3, 4]) if plan['continue_after_fault'] else 1
+        ats = sorted(set(rng.randint(1, 90) for _ in range(nf)))
+        plan['faults'] = [{'at': 'cost#%d' % a, 'kind': 'raise', 'msg': 'injected failure of the cost function'} for a in ats]
     return plan
 
 def _run_plan(plan):
